@@ -508,7 +508,16 @@ fn run_c11(ctx: &mut RunCtx) -> RunResult {
                 let second = ctx.ch.chance(1, 4);
                 let mut plan = vec![Fault::RawFlip { at: k, off, bit }];
                 if second {
-                    plan.push(Fault::RawFlip { at: k, off: off ^ 1, bit: (bit + 3) % 8 });
+                    // a second flip nearby: the adjacent byte, or two bytes further on / back, same or another bit
+                    let (o2, b2) = match ctx.ch.draw(4) {
+                        0 => (off ^ 1, (bit + 3) % 8),
+                        1 => (off + 2, bit),
+                        2 => (off.saturating_sub(2), bit),
+                        _ => (off + 1, bit),
+                    };
+                    if o2 != off {
+                        plan.push(Fault::RawFlip { at: k, off: o2, bit: b2 });
+                    }
                 }
                 ctx.fault("tamper-authenticated-field");
                 let t = walk(&mut w, true, &pkt, src, 0, now, &plan, 200);
@@ -831,6 +840,7 @@ fn attacker(ctx: &mut RunCtx, w: &mut World, harvest: &[(ScionPath, usize, usize
     struct Seg {
         info: [u8; 8],
         hops: Vec<[u8; 12]>,
+        owners: Vec<usize>,
         first_as: usize,
         last_as: usize,
     }
@@ -870,7 +880,8 @@ fn attacker(ctx: &mut RunCtx, w: &mut World, harvest: &[(ScionPath, usize, usize
                 let info: [u8; 8] = b[sp.info_off(i)..sp.info_off(i) + 8].try_into().unwrap();
                 let hops: Vec<[u8; 12]> = (start..start + sp.seg_len[i]).map(|j| b[sp.hop_off(j)..sp.hop_off(j) + 12].try_into().unwrap()).collect();
                 let (Some(fa), Some(la)) = (as_of_hop.get(&start), as_of_hop.get(&(start + sp.seg_len[i] - 1))) else { continue };
-                segs.push(Seg { info, hops, first_as: *fa, last_as: *la });
+                let owners: Vec<usize> = (start..start + sp.seg_len[i]).map(|j| as_of_hop.get(&j).copied().unwrap_or(usize::MAX)).collect();
+                segs.push(Seg { info, hops, owners, first_as: *fa, last_as: *la });
             }
         }
     }
@@ -881,14 +892,54 @@ fn attacker(ctx: &mut RunCtx, w: &mut World, harvest: &[(ScionPath, usize, usize
     for _ in 0..n_attacks {
         let mut chosen: Vec<Seg> = Vec::new();
         let n_seg = 1 + ctx.ch.idx(3);
-        for k in 0..n_seg {
-            let cands: Vec<&Seg> = if k > 0 && ctx.ch.chance(3, 4) { segs.iter().filter(|s| s.first_as == chosen[k - 1].last_as).collect() } else { segs.iter().collect() };
+        // junction-directed splice: two authentic pieces that meet in one AS X - a head of a segment that ends in X
+        // and a tail of a segment that starts in X - so that every pair of link types X has is tried at a segment change
+        if ctx.ch.chance(1, 2) {
+            let x = ctx.ch.idx(w.m.ases.len());
+            let heads: Vec<(usize, usize)> = segs.iter().enumerate().flat_map(|(i, s)| s.owners.iter().enumerate().filter(|(p, o)| **o == x && *p >= 1).map(move |(p, _)| (i, p)).collect::<Vec<_>>()).collect();
+            let tails: Vec<(usize, usize)> = segs.iter().enumerate().flat_map(|(i, s)| s.owners.iter().enumerate().filter(|(p, o)| **o == x && *p + 2 <= s.owners.len()).map(move |(p, _)| (i, p)).collect::<Vec<_>>()).collect();
+            if !heads.is_empty() && !tails.is_empty() {
+                let (hi, hp) = heads[ctx.ch.idx(heads.len())];
+                let (ti, tp) = tails[ctx.ch.idx(tails.len())];
+                let mut a = segs[hi].clone();
+                a.hops.truncate(hp + 1);
+                a.owners.truncate(hp + 1);
+                a.last_as = x;
+                let mut b = segs[ti].clone();
+                if tp > 0 {
+                    cut_tail(&mut b.info, &mut b.hops, tp);
+                    b.owners.drain(..tp);
+                }
+                b.first_as = x;
+                chosen.push(a);
+                chosen.push(b);
+                ctx.probe("attack-junction-directed");
+            }
+        }
+        for k in chosen.len()..n_seg.max(chosen.len()) {
+            let junction = if k > 0 { chosen[k - 1].last_as } else { usize::MAX };
+            let mode = if k > 0 { ctx.ch.draw(4) } else { 3 };
+            let cands: Vec<&Seg> = match mode {
+                0 | 1 => segs.iter().filter(|s| s.first_as == junction).collect(),
+                // a segment that passes through the junction AS: its tail from there on is spliced in
+                2 => segs.iter().filter(|s| s.owners.len() > 2 && s.owners[1..s.owners.len() - 1].contains(&junction)).collect(),
+                _ => segs.iter().collect(),
+            };
             if cands.is_empty() {
                 break;
             }
             let mut s = cands[ctx.ch.idx(cands.len())].clone();
+            if mode == 2 {
+                let k0 = s.owners.iter().position(|o| *o == junction).unwrap_or(0);
+                if k0 > 0 {
+                    cut_tail(&mut s.info, &mut s.hops, k0);
+                    s.owners.drain(..k0);
+                    s.first_as = junction;
+                    ctx.probe("attack-spliced-tail-at-junction");
+                }
+            }
             // optional tampering with unauthenticated parts
-            match ctx.ch.draw(8) {
+            match ctx.ch.draw(10) {
                 0 => s.info[0] ^= 0x01, // flip the direction flag
                 1 => s.info[0] ^= 0x02, // flip the peering flag
                 2 => {
@@ -899,6 +950,19 @@ fn attacker(ctx: &mut RunCtx, w: &mut World, harvest: &[(ScionPath, usize, usize
                     // cut the segment short
                     let cut = 2 + ctx.ch.idx(s.hops.len() - 2);
                     s.hops.truncate(cut);
+                    s.owners.truncate(cut);
+                    s.last_as = s.owners.last().copied().unwrap_or(s.last_as);
+                }
+                4 | 5 if s.hops.len() > 2 => {
+                    // keep only a tail of the segment and give it the SegID that authenticates its first hop field
+                    // (an attacker knows every MAC of a segment it has seen): in construction direction
+                    // beta_k = beta_0 xor the leading bytes of the MACs before k; against it the accumulator the k-th
+                    // router would have arrived at
+                    let k = 1 + ctx.ch.idx(s.hops.len() - 2);
+                    cut_tail(&mut s.info, &mut s.hops, k);
+                    s.owners.drain(..k);
+                    s.first_as = s.owners.first().copied().unwrap_or(usize::MAX);
+                    ctx.probe("attack-segment-tail");
                 }
                 _ => {}
             }
@@ -909,7 +973,7 @@ fn attacker(ctx: &mut RunCtx, w: &mut World, harvest: &[(ScionPath, usize, usize
         }
         ctx.fault("attacker-recombination");
         let src = chosen[0].first_as;
-        let dst = if ctx.ch.chance(4, 5) { chosen.last().unwrap().last_as } else { ctx.ch.idx(w.m.ases.len()) };
+        let dst = if ctx.ch.chance(4, 5) && chosen.last().unwrap().last_as != usize::MAX { chosen.last().unwrap().last_as } else { ctx.ch.idx(w.m.ases.len()) };
         // assemble the raw path
         let mut lens = [0usize; 3];
         for (i, s) in chosen.iter().enumerate() {
@@ -924,6 +988,37 @@ fn attacker(ctx: &mut RunCtx, w: &mut World, harvest: &[(ScionPath, usize, usize
             for h in &s.hops {
                 raw.extend_from_slice(h);
             }
+        }
+        if src == usize::MAX {
+            continue;
+        }
+        // optionally start in the middle: the pointers name a later hop field and the packet is injected at the AS
+        // owning it (from inside, or on the interface that hop field names)
+        let all_owners: Vec<usize> = chosen.iter().flat_map(|s| s.owners.iter().copied()).collect();
+        let n_hf: usize = lens.iter().sum();
+        let mut start_hf = 0usize;
+        if n_hf > 1 && ctx.ch.chance(1, 4) {
+            start_hf = 1 + ctx.ch.idx(n_hf - 1);
+            let mut inf = 0;
+            let mut acc = lens[0];
+            while start_hf >= acc && inf < 2 {
+                inf += 1;
+                acc += lens[inf];
+            }
+            raw[0] = ((inf as u8) << 6) | (start_hf as u8 & 0x3f);
+            ctx.probe("attack-starts-mid-path");
+        }
+        // optionally forge the MAC of one hop field from the start position onwards
+        if ctx.ch.chance(1, 5) {
+            let j = start_hf + ctx.ch.idx(n_hf - start_hf);
+            let n_inf = chosen.len();
+            let o = 4 + 8 * n_inf + 12 * j + 6 + ctx.ch.idx(6);
+            raw[o] ^= 1 << ctx.ch.draw(8);
+            ctx.probe("attack-forged-mac");
+        }
+        let src = if start_hf > 0 { all_owners.get(start_hf).copied().unwrap_or(usize::MAX) } else { src };
+        if src == usize::MAX {
+            continue;
         }
         // wrap it into a packet by re-using an encoded packet's headers: build with the model API
         let Some(pkt) = packet_from_raw_path(w.m.isd_asn(src), w.m.isd_asn(dst), &raw) else { continue };
@@ -949,6 +1044,23 @@ fn attacker(ctx: &mut RunCtx, w: &mut World, harvest: &[(ScionPath, usize, usize
         compare(ctx, w, "attacker", &shape, "", &r_real, &r_ref)?;
     }
     Ok(())
+}
+
+/// Drop the first `k` hop fields of a segment and set the SegID so that the new first hop field authenticates.
+fn cut_tail(info: &mut [u8; 8], hops: &mut Vec<[u8; 12]>, k: usize) {
+    let cons = info[0] & 1 != 0;
+    let mut seg_id = u16::from_be_bytes([info[2], info[3]]);
+    if cons {
+        for h in &hops[..k] {
+            seg_id ^= u16::from_be_bytes([h[6], h[7]]);
+        }
+    } else {
+        for h in &hops[1..=k] {
+            seg_id ^= u16::from_be_bytes([h[6], h[7]]);
+        }
+    }
+    info[2..4].copy_from_slice(&seg_id.to_be_bytes());
+    hops.drain(..k);
 }
 
 fn packet_from_raw_path(src: IsdAsn, dst: IsdAsn, raw_path: &[u8]) -> Option<Vec<u8>> {
